@@ -153,3 +153,22 @@ Example collision_breaks_it :
   exists cs b, feed (cwrap reveal0 mark0 hs0 tbl0 (evil :: R0)) (init 4 ts0) [fl_pfx ++ data0] = (HDecided cs b, []) /\
                In (TMin, WFound evil 32) cs.
 Proof. eexists _, _. split; [vm_compute; reflexivity|]. cbn. auto. Qed.
+
+(* Fifth round: the hypotheses of C04_obfs4_every_padding_length are satisfiable at both ends of the
+   legal range (flights of 141 and of 8192 bytes), and a zoned link-local peer is an IP peer. *)
+From CJ Require Import C04.ProofsPad.
+Example pad_range_values : (obfs4_min_pad, N.of_nat obfs4_max_pad) = (77%nat, 8128%N).
+Proof. vm_compute. reflexivity. Qed.
+Example longest_flight_recognised :
+  let fl := obfs4_flight (repeat 1%N 32) (repeat 2%N obfs4_max_pad) (repeat 3%N 16) (repeat 4%N 16) in
+  (N.of_nat (length fl), mark_at_tail (repeat 3%N 16) fl) = (8192%N, true).
+Proof. vm_compute. reflexivity. Qed.
+Example shortest_flight_recognised :
+  let fl := obfs4_flight (repeat 1%N 32) (repeat 2%N obfs4_min_pad) (repeat 3%N 16) (repeat 4%N 16) in
+  (length fl, mark_at_tail (repeat 3%N 16) fl) = (141%nat, true).
+Proof. vm_compute. reflexivity. Qed.
+Example zoned_link_local_peer_served :
+  let p := PTCP (repeat 0%N 16) true in (is_ip_peer p, handle_from p tt) = (true, Some tt).
+Proof. vm_compute. reflexivity. Qed.
+Example non_ip_peer_dropped : handle_from (POther None) tt = None.
+Proof. reflexivity. Qed.
